@@ -281,7 +281,8 @@ def run_history(ctx, hseed, maxops):
         else:
             # index clearing, then a model that mixes generations must be rejected
             cl.clear_variable_indices()
-            z = cl.Variable(shape=(2,), name='newgen_%d_%d' % (hseed, k))
+            # (half of the time the new Variable carries the NAME of an old one: model-building code that is run again)
+            z = cl.Variable(shape=(2,), name=(rng.choice(w.vars).name if w.vars and rng.random() < 0.5 else 'newgen_%d_%d' % (hseed, k)))
             mixed = list(w.cons) + [z >= 0]
             pre, dummy, cand, out, post = compile_observe(mixed, w.vars + [z])
             steps.append({'pre': pre, 'dummy': dummy, 'vars': cand, 'out': out, 'post': post, 'k': k, 'mixed': True})
@@ -363,9 +364,84 @@ def _sage_history(seed):
     return problems
 
 
+def _interleave_history(seed):
+    """several SAGE models over the SAME exponents and sign pattern that differ in the domain X and in their settings, constructed
+    and solved one after the other in one process; the reference for each is the same model built ALONE, in a child forked before
+    any of them exists (a fresh copy built afterwards in the same process would share whatever state the others left behind)"""
+    import sageopt.coniclifts as cl
+    from sageopt.symbolic.signomials import SigDomain
+    rng = random.Random(seed)
+    n = rng.choice([1, 1, 2])
+    rows = {tuple(float(rng.randint(0, 2)) for _ in range(n)) for _ in range(rng.randint(2, 4))}
+    rows.add(tuple([0.0] * n))
+    alpha = np.array(sorted(rows))
+    m = alpha.shape[0]
+    if m < 2:
+        return []
+    coef = [float(rng.choice([1, 2, 3])) for _ in range(m)]
+    varpos = rng.randrange(1, m)             # the coefficient that carries the variable: c[varpos] = -g (sign unknown)
+    kinds = ['plain', 'halfline', 'box', 'plain-noreduce', 'halfline-presolve']
+    order = rng.sample(kinds, rng.randint(2, 3))
+
+    def make(kind, tag):
+        g = cl.Variable(name='c11ig_%d_%s' % (seed, tag))
+        cvec = cl.Expression([(-1.0 * g) if i == varpos else coef[i] for i in range(m)])
+        X, settings = None, {}
+        if kind.startswith('halfline'):
+            x = cl.Variable(shape=(n,), name='x')
+            X = SigDomain(n, coniclifts_cons=[x <= float(np.log(2.0))])
+        elif kind == 'box':
+            x = cl.Variable(shape=(n,), name='x')
+            X = SigDomain(n, coniclifts_cons=[x <= 1, x >= -1])
+        if kind.endswith('noreduce'):
+            settings = {'heuristic_reduction': False}
+        if kind.endswith('presolve'):
+            settings = {'presolve_trivial_age_cones': True}
+        con = cl.PrimalSageCone(cvec, alpha, X, 'c11isage_%d_%s' % (seed, tag), settings=settings)
+        return [g <= 5, g >= -5, con], g
+
+    def observe(kind, tag):
+        try:
+            cons, g = make(kind, tag)
+            prob = cl.Problem(cl.MAX, g, cons)
+            st_, val = prob.solve(solver='ECOS', verbose=False)
+            return {'status': st_, 'value': float(val), 'shape': list(prob.A.shape),
+                    'K': sorted(Counter((co.type, int(co.len)) for co in prob.K).items())}
+        except Exception as e:  # noqa: BLE001
+            return {'raises': type(e).__name__, 'msg': str(e)[:120]}
+    refs = {}
+    for kind in order:
+        k_, res = common.forked(observe, kind, 'ref', timeout=120)
+        if k_ != 'ok':
+            return []
+        refs[kind] = res
+    problems = []
+    for pos, kind in enumerate(order):
+        got, want = observe(kind, 'hist%d' % pos), refs[kind]
+        same = same_value(got, want)
+        structure = ('K' in got and 'K' in want and (got['K'], got['shape']) != (want['K'], want['shape']))
+        if same is None and not structure:
+            continue
+        if same is False or structure:
+            problems.append(('SAGE model (%s) constructed after the models %s over the same exponents: %s; the same model built alone in a '
+                             'fresh process: %s' % (kind, order[:pos], got, want), {'interleave_seed': seed}))
+            break
+    return problems
+
+
 def sage_stream(ctx, rng, count):
     out = []
     for _ in range(count):
+        seed = rng.randrange(1 << 30)
+        kind, res = common.forked(_interleave_history, seed, timeout=300)
+        ctx.case({'stream': 'sage-interleave', 'seed': seed})
+        ctx.count('stream:sage-interleave')
+        if kind == 'exception':
+            raise RuntimeError('interleave history raised in the child: %s' % res)
+        if kind != 'ok':
+            ctx.incon('interleave history: solver %s' % kind)
+        else:
+            out += res
         seed = rng.randrange(1 << 30)
         kind, res = common.forked(_sage_history, seed, timeout=300)
         ctx.case({'stream': 'sage-history', 'seed': seed})
@@ -512,9 +588,15 @@ def replay(obj):
     r = obj['replay']
     print('what:', obj['what'])
     if 'sage_seed' in r:
-        for what, _ in _sage_history(r['sage_seed']):
+        probs = _sage_history(r['sage_seed'])
+        for what, _ in probs:
             print('  ', what)
-        return 1
+        return 1 if probs else 0
+    if 'interleave_seed' in r:
+        probs = _interleave_history(r['interleave_seed'])
+        for what, _ in probs:
+            print('  ', what)
+        return 1 if probs else 0
     if 'hseed' in r:
         class C:
             def incon(self, *a):
